@@ -370,6 +370,11 @@ func VerifStep() {
 		proc = verifrt.Choose("proc", pSETATTR, pWRITE, pREAD, pGETATTR, pCOMMIT, pCREATE, pMKDIR, pSYMLINK, pREMOVE, pRMDIR, pLOOKUP, pRENAME, pREADDIR, pRDPLUS, pREADLNK)
 	}
 	involved := []uint64{39, 71, vChildOf(1), vChildOf(2), 1}
+	p04 := verifrt.Param("p04", 0) == 1
+	c04 := &v04{}
+	var newh nfstypes.Post_op_fh3
+	var name, name2 nfstypes.Filename3
+	var dx1, dx2 uint64
 	var st nfstypes.Nfsstat3
 	mutating := true
 	unstable := false
@@ -379,6 +384,13 @@ func VerifStep() {
 		f, x, ok := w.anyFh("fh")
 		ip := w.boundInode(x, ok)
 		involved = append(involved, x)
+		if p04 {
+			w.pre04(c04, 39, 71)
+			if ok {
+				w.pre04(c04, x)
+			}
+			w.pre04links(c04)
+		}
 		switch proc {
 		case pGETATTR:
 			mutating = false
@@ -419,17 +431,32 @@ func VerifStep() {
 		f, x, ok := w.anyFh("dir")
 		w.boundInode(x, ok)
 		involved = append(involved, x)
-		name := w.vName("n")
+		name = w.vName("n")
+		dx1 = x
+		if p04 {
+			w.pre04(c04, 39, 71)
+			if ok {
+				c04.dirs = append(c04.dirs, x)
+				w.pre04(c04, x, vChildIn(x, 2))
+				if w.dirSlots > 3 {
+					w.pre04(c04, vChildIn(x, 3))
+				}
+			}
+			w.pre04links(c04)
+		}
 		switch proc {
 		case pLOOKUP:
 			mutating = false
 			st = w.nfs.NFSPROC3_LOOKUP(nfstypes.LOOKUP3args{What: nfstypes.Diropargs3{Dir: f, Name: name}}).Status
 		case pCREATE:
-			st = w.nfs.NFSPROC3_CREATE(nfstypes.CREATE3args{Where: nfstypes.Diropargs3{Dir: f, Name: name}, How: nfstypes.Createhow3{Mode: nfstypes.Createmode3(verifrt.Choose("how", 0, 2))}}).Status
+			r := w.nfs.NFSPROC3_CREATE(nfstypes.CREATE3args{Where: nfstypes.Diropargs3{Dir: f, Name: name}, How: nfstypes.Createhow3{Mode: nfstypes.Createmode3(verifrt.Choose("how", 0, 2))}})
+			st, newh = r.Status, r.Resok.Obj
 		case pMKDIR:
-			st = w.nfs.NFSPROC3_MKDIR(nfstypes.MKDIR3args{Where: nfstypes.Diropargs3{Dir: f, Name: name}}).Status
+			r := w.nfs.NFSPROC3_MKDIR(nfstypes.MKDIR3args{Where: nfstypes.Diropargs3{Dir: f, Name: name}})
+			st, newh = r.Status, r.Resok.Obj
 		case pSYMLINK:
-			st = w.nfs.NFSPROC3_SYMLINK(nfstypes.SYMLINK3args{Where: nfstypes.Diropargs3{Dir: f, Name: name}, Symlink: nfstypes.Symlinkdata3{Symlink_data: nfstypes.Nfspath3(verifrt.String("tgt", 2))}}).Status
+			r := w.nfs.NFSPROC3_SYMLINK(nfstypes.SYMLINK3args{Where: nfstypes.Diropargs3{Dir: f, Name: name}, Symlink: nfstypes.Symlinkdata3{Symlink_data: nfstypes.Nfspath3(verifrt.String("tgt", 2))}})
+			st, newh = r.Status, r.Resok.Obj
 		case pREMOVE:
 			st = w.nfs.NFSPROC3_REMOVE(nfstypes.REMOVE3args{Object: nfstypes.Diropargs3{Dir: f, Name: name}}).Status
 		case pRMDIR:
@@ -445,14 +472,33 @@ func VerifStep() {
 	case pRENAME:
 		from, x1, ok1 := w.anyFh("from")
 		w.boundInode(x1, ok1)
-		to, x2 := from, x1
+		to, x2, ok2 := from, x1, ok1
 		if verifrt.Choose("samedir", 1, 0) == 0 {
-			var ok2 bool
 			to, x2, ok2 = w.anyFh("to")
 			w.boundInode(x2, ok2)
 		}
 		involved = append(involved, x1, x2)
-		st = w.nfs.NFSPROC3_RENAME(nfstypes.RENAME3args{From: nfstypes.Diropargs3{Dir: from, Name: w.vName("fn")}, To: nfstypes.Diropargs3{Dir: to, Name: w.vName("tn")}}).Status
+		dx1, dx2 = x1, x2
+		name, name2 = w.vName("fn"), w.vName("tn")
+		if p04 {
+			w.pre04(c04, 39, 71)
+			if ok1 {
+				c04.dirs = append(c04.dirs, x1)
+				w.pre04(c04, x1, vChildIn(x1, 2))
+				if w.dirSlots > 3 {
+					w.pre04(c04, vChildIn(x1, 3))
+				}
+			}
+			if ok2 && x2 != x1 {
+				c04.dirs = append(c04.dirs, x2)
+				w.pre04(c04, x2, vChildIn(x2, 2))
+				if w.dirSlots > 3 {
+					w.pre04(c04, vChildIn(x2, 3))
+				}
+			}
+			w.pre04links(c04)
+		}
+		st = w.nfs.NFSPROC3_RENAME(nfstypes.RENAME3args{From: nfstypes.Diropargs3{Dir: from, Name: name}, To: nfstypes.Diropargs3{Dir: to, Name: name2}}).Status
 	}
 	verifrt.Mark(vMarkOpEnd)
 	m := vMonitor()
@@ -480,6 +526,15 @@ func VerifStep() {
 	}
 	if verifrt.Param("p10", 0) == 1 {
 		w.coherent("cached-inode-equals-disk", involved)
+	}
+	if p04 {
+		r04 := &v04res{}
+		w.post04(c04, r04)
+		w.freedDirWasEmpty(c04, r04)
+		r04.settle()
+		if ok {
+			w.names04(c04, proc, dx1, dx2, name, name2, newh)
+		}
 	}
 	if verifrt.Param("p06", 0) == 1 {
 		verifrt.AssertK(m.ascending, "mon:locks-acquired-in-ascending-order", "KF-apply-lock-order", proc == pRDPLUS)
@@ -692,7 +747,7 @@ func VerifC12Zero() {
 		// remove the file through its (representative) parent directory entry
 		dh, dx := w.vLive("dir", nfstypes.NF3DIR)
 		w.boundInode(dx, true)
-		verifrt.Assume(x == vChildOf(2))
+		verifrt.Assume(x == vChildIn(dx, 2))
 		st = w.nfs.NFSPROC3_REMOVE(nfstypes.REMOVE3args{Object: nfstypes.Diropargs3{Dir: dh, Name: w.vName("n")}}).Status
 	}
 	if st != nfstypes.NFS3_OK {
@@ -960,4 +1015,77 @@ func VerifC01Recovery() {
 	logical := logged[n/8]&(1<<(n%8)) != 0
 	verifrt.Assert(nfs.fsstate.Balloc.VerifBit(n) == logical, "allocator-built-from-the-logical-disk")
 	verifrt.Cover("end")
+}
+
+// VerifC03Revalidate: the two places where a request drops all its locks and takes them again in
+// ascending order (lookupOrdered for LOOKUP/REMOVE/RMDIR, validateRename for RENAME onto an existing
+// name). Between the unlocked look and the re-lock other requests may have changed the directories
+// arbitrarily, so what the request saw earlier is modelled as an ARBITRARY inode number (resp. arbitrary
+// numbers and handles): whenever the re-locking step accepts, the inodes it hands on are exactly the
+// ones the names denote NOW, under the locks, and the directory handles are current. Otherwise a
+// request would go on to operate on an object the name no longer denotes (a half-applied view of the
+// other request).
+func VerifC03Revalidate() {
+	w := vWorld("d")
+	dh, dx := w.vLive("dir", nfstypes.NF3DIR)
+	w.boundInode(dx, true)
+	g := verifrt.U64("hgen")
+	parent := fh.Fh{Ino: dx, Gen: g}
+	_ = dh
+	switch verifrt.Choose("site", 0, 1, 2) {
+	case 0:
+		name := w.vName("n")
+		seen := verifrt.Choose("seen", vChildOf(2), 64, vChildOf(1), 2)
+		verifrt.Assume(seen != dx)
+		op := fstxn.Begin(w.nfs.fsstate)
+		verifrt.Mark(vMarkOpBegin)
+		res := lookupOrdered(op, name, parent, seen)
+		m := vMonitor()
+		if res == nil {
+			verifrt.Assert(m.heldAtEnd == 0, "mon:refusal-releases-all")
+			verifrt.Cover("refused")
+			return
+		}
+		now, _ := dir.LookupName(res[1], op, name)
+		verifrt.Assert(res[1].Inum == dx && res[1].Gen == g, "relocked-directory-is-the-handle's-object")
+		verifrt.Assert(res[0].Inum == seen && now == seen, "relocked-child-is-what-the-name-denotes-now")
+		verifrt.Assert(op.OwnInum(seen) && op.OwnInum(dx), "both-locked")
+		verifrt.Cover("accepted")
+	case 1, 2:
+		// RENAME onto an existing name: 3 inodes (same directory) or 4
+		fn, tn := w.vName("fn"), w.vName("tn")
+		seenFrom := verifrt.Choose("seenfrom", vChildOf(2), 64)
+		seenTo := verifrt.Choose("seento", 64, vChildOf(2), 2)
+		verifrt.Assume(seenFrom != dx && seenTo != dx && seenFrom != seenTo)
+		op := fstxn.Begin(w.nfs.fsstate)
+		verifrt.Mark(vMarkOpBegin)
+		inums := []uint64{dx, seenFrom, seenTo}
+		toh := parent
+		tx := dx
+		if verifrt.Choose("site2", 1, 2) == 2 {
+			_, tx = w.vLive("todir", nfstypes.NF3DIR)
+			verifrt.Assume(tx != dx && tx != seenFrom && tx != seenTo)
+			w.boundInode(tx, true)
+			toh = fh.Fh{Ino: tx, Gen: verifrt.U64("tgen")}
+			inums = []uint64{dx, tx, seenFrom, seenTo}
+		}
+		inodes := lockInodes(op, inums)
+		if inodes == nil {
+			verifrt.Cover("stale")
+			return
+		}
+		if !validateRename(op, inodes, parent, toh, fn, tn) {
+			verifrt.Cover("refused")
+			return
+		}
+		dfrom, dto := inodes[0], inodes[0]
+		if len(inums) == 4 {
+			dto = inodes[1]
+		}
+		nf, _ := dir.LookupName(dfrom, op, fn)
+		nt, _ := dir.LookupName(dto, op, tn)
+		verifrt.Assert(dfrom.Inum == dx && dfrom.Gen == g && dto.Inum == tx && dto.Gen == toh.Gen, "relocked-directories-are-the-handles'-objects")
+		verifrt.Assert(nf == seenFrom && nt == seenTo, "relocked-objects-are-what-the-names-denote-now")
+		verifrt.Cover("accepted")
+	}
 }
